@@ -64,7 +64,10 @@ NONE = {"none": True}
 def gcase(kernel, args, unsafe=False, fuel=None, **ann):
     n = sum(len(a.get("arr", a.get("barr", []))) for a in args)
     c = {"op": "gen_kernel", "kernel": kernel, "args": args, "fuel": fuel if fuel is not None else 4 * n + 64,
-         "_unsafe": bool(unsafe)}
+         "_unsafe": bool(unsafe),
+         # the cross-cutting harnesses (C10/C11/C12, checks/harness/meta.py) re-run the owners' own well-formed cases and
+         # use owner-specific helpers on them; this flag keeps the translator-validation cases out of those runs
+         "_malformed": True}
     c.update(ann)
     return c
 
